@@ -750,7 +750,7 @@ Proof.
       replace (8 - length R)%nat with (S (7 - length R)) in Hg by lia.
       rewrite zeros_succ in Hg. exact (gcheck_zero _ Hg).
     + assert (Hn : (length L <= 6)%nat) by (rewrite HF, len_app in ElF; llia).
-      pose proof (T6_compressed L [] GL (Forall_nil _) ltac:(cbn [length]; lia)) as Ht.
+      pose proof (T6_compressed L [] GL ltac:(constructor) ltac:(cbn [length]; lia)) as Ht.
       cbn [join map length] in Ht. rewrite !app_nil_r, Nat.sub_0_r in Ht.
       exists (map hexval L ++ zeros (8 - length L)). split.
       * rewrite Hs, HF, join_right by assumption. exact Ht.
@@ -773,7 +773,7 @@ Proof.
   { apply Forall_app. split; [apply join_ascii, GL|repeat constructor; lia]. }
   rewrite std_split_ok by (try assumption; lia). cbn [obind].
   assert (HF : strings_split 58 s = L ++ [[]; []]).
-  { subst s. pose proof (split_compressed L [] GL (Forall_nil _)) as H.
+  { subst s. pose proof (split_compressed L [] GL ltac:(constructor)) as H.
     cbn [join] in H. rewrite app_nil_r in H. rewrite H.
     destruct L; [discriminate|reflexivity]. }
   rewrite HF. replace (len (L ++ [[]; []])) with 9 by (rewrite len_app; llia).
@@ -818,7 +818,7 @@ Proof.
       cbn [side].
       assert (Hn6 : (length L <= 6)%nat).
       { destruct (le_lt_dec (length L) 6) as [|Hbig]; [assumption|exfalso].
-        apply Hn12. exists L. repeat split; [cbn [length] in Hlen; lia|assumption|].
+        apply Hn12. exists L. split; [cbn [length] in Hlen; lia|split; [assumption|]].
         cbn [join]. rewrite app_nil_r. reflexivity. }
       replace ((len (L ++ [[]; []]) <? 3) || (8 <? len (L ++ [[]; []]))) with false
         by (rewrite len_app; pose proof (len_pos_nonnil L HLne); llia).
